@@ -9,6 +9,7 @@ probes that would land within 1e-9 are counted (`skipped_boundary`) and dropped.
 """
 from __future__ import annotations
 
+import copy as _copy
 import datetime as _dt
 import itertools
 import statistics
@@ -137,7 +138,7 @@ class C17(Prop):
         "t:s2-none", "t:s2-canary", "t:s2-repeat", "t:s2-manual",
         "g:critical", "g:stable", "g:fired", "g:none", "g:raise",
         "tr:positive", "tr:anergic", "tr:insufficient", "tr:raise", "tr:unregistered",
-        "p:untrained", "p:nopeptide", "p:recalled", "p:recall-blocked-anergic", "p:recall-blocked-inside", "p:tcell",
+        "p:untrained", "p:nopeptide", "p:recalled", "p:recalled-escalated", "p:recall-blocked-anergic", "p:recall-blocked-inside", "p:tcell",
         "p:none", "p:suspicious", "p:confirmed", "p:critical", "p:anergic", "p:s2-cross", "p:stored",
         "p:stored-pruned", "p:cond-raised", "d:peptide", "d:short", "d:evicted", "d:canary",
         "m:pruned-old", "m:prune-kept", "m:imported", "m:import-full", "m:reimport", "m:roundtrip",
@@ -635,6 +636,18 @@ class C17(Prop):
                           # what the public list `memory.signatures` holds right now, in the oracle's own terms
                           "mem_keys": {self.sig_key(sg, st) for sg in S.memory.signatures}}
                     before_ids = {id(sg) for sg in S.memory.signatures}
+                    # how grave the watcher itself finds what the agent shows now, GIVEN a second signal: asked of a
+                    # copy of the watcher (flagged) on a copy of the display, so that nothing real is touched
+                    ex["grade"] = None
+                    if tc is not None and disp is not None:
+                        try:
+                            pep_c = _copy.deepcopy(disp).generate_peptide()
+                            if pep_c is not None:
+                                tcc = _copy.deepcopy(tc)
+                                tcc.flag_manually("second signal")
+                                ex["grade"] = self.LV.get(tcc.inspect(pep_c).threat_level, "?")
+                        except Exception:
+                            ex["grade"] = None
                     del self.raw_log[:]
                     del self.eval_log[:]
 
@@ -892,6 +905,13 @@ class C17(Prop):
                         out.append(Violation("critical_never_changed", ra, o, idx))
                 if level == "critical" and action != "shutdown":
                     out.append(Violation("critical_never_softened", "shutdown", o, idx))
+                # a critical threat is never softened: when the pipeline reports a threat and the watcher itself, given
+                # a second signal, classifies what the agent shows now as CRITICAL, the report is CRITICAL / SHUTDOWN —
+                # whatever a tolerance rule or the memory did with a milder threat earlier
+                if ex.get("grade") == "critical" and level in ("confirmed", "critical") and \
+                        (level != "critical" or action != "shutdown"):
+                    out.append(Violation("critical_never_softened", "critical shutdown (the watcher rates the current "
+                                         "fingerprint CRITICAL)", o, idx))
                 # whatever path produced the response (T cell or memory, first or repeated inspection): the action is
                 # the one the reported level calls for, or exactly one rung below it
                 if level in PRESCRIBED and not one_step_or_same(PRESCRIBED[level], action):
@@ -1609,6 +1629,16 @@ class C17(Prop):
         if rng.random() < 0.5:
             lines += [f"show {a} " + " ".join(fp_tokens(base)), f"pinspect {a}",
                       f"show {a} " + " ".join(fp_tokens(threat)), f"pinspect {a}", f"pinspect {a}"]
+        if rng.random() < 0.5:
+            # the remembered threat gets worse under the same two hashes: three violations at once, or canaries failing badly
+            worse = list(threat)
+            if rng.random() < 0.6:
+                worse[0], worse[4] = base[0] + F(500), F(0)
+            else:
+                worse[9] = rng.choice([F(1, 4), F(0), F(31, 64)])
+            lines += [f"show {a} " + " ".join(fp_tokens(tuple(worse))), f"pinspect {a}", f"pinspect {a}"]
+            if rng.random() < 0.4:
+                lines += [f"show {a} " + " ".join(fp_tokens(threat)), f"pinspect {a}"]
         return {"lines": lines, "note": "pipeline repeat inspections under an active rule"}
 
     def case_display_full(self, rng):
